@@ -25,8 +25,12 @@ def check_evidence(ev):
             raise bootstrap.HarnessError("evidence: rule / samples missing")
 
 
-def write_evidence(pid, ev):
-    check_evidence(ev)
+def write_evidence(pid, ev, strict=True):
+    try:
+        check_evidence(ev)
+    except bootstrap.HarnessError:
+        if strict:
+            raise
     d = os.path.join(bootstrap.VERIF, "evidence")
     os.makedirs(d, exist_ok=True)
     tmp = os.path.join(d, pid + ".json.tmp")
